@@ -28,6 +28,10 @@ def make_cases(tier, seed):
             pos = rnd.randrange(0, f["nkv"] + 1)
             val = rnd.choice({"valid": VALID_VALUES, "unusable": UNUSABLE_VALUES, "ambiguous": AMBIGUOUS_VALUES}[kind])
             kv_ref = ("valid" if kind == "valid" else "unusable", val, pos)
+            if val in ("-1", "&n") and f["target"] in ("blockopen", "slashes"):
+                # a value outside the key-value grammar makes the whole statement unparsable; its target string is then scanned as
+                # ordinary text, where a comment opener triggers the open finding D13 (C10) and would hide the *following* statements
+                f = dict(f, target="plain")
         cases.append((f, kind, kv_ref))
     rnd.shuffle(cases)
     return cases, feats
